@@ -491,7 +491,8 @@ class Session:
         if v == "EntryNotFound":
             return {"ok": False, "e": "EntryNotFound"}
         if v == "SizeMismatch":
-            return {"ok": False, "e": "SizeMismatch", "wanted": err["wanted"], "actual": err["actual"]}
+            w = err["wanted"]
+            return {"ok": False, "e": "SizeMismatch", "wanted": w if w < 2 ** 31 else -1, "actual": err["actual"]}
         if v == "IntegrityError":
             return {"ok": False, "e": "Integrity"}
         if v in ("IoError", "RawIo"):
